@@ -142,12 +142,29 @@ def ensure_fixture_facts():
     return d
 
 
+def _prune_cache(keep=400):
+    try:
+        ds = [os.path.join(CACHE, x) for x in os.listdir(CACHE) if "-c" in x]
+        if len(ds) > keep:
+            ds.sort(key=lambda x: os.path.getmtime(x))
+            for x in ds[:len(ds) - keep]:
+                shutil.rmtree(x, ignore_errors=True)
+    except OSError:
+        pass
+
+
 def ensure_facts(config="all", repo=None, force=False):
     """Return (dir, info) of fresh facts for `repo` in `config`, extracting if needed."""
     repo = repo or REPO
     build_driver()
     h = input_hash(repo, config)
-    tag = hashlib.sha256(repo.encode()).hexdigest()[:8]
+    if os.path.realpath(repo) == os.path.realpath(REPO):
+        tag = hashlib.sha256(repo.encode()).hexdigest()[:8]
+    else:
+        # scratch trees (corpus patches applied to a worktree): keyed by CONTENT, so the same patched tree is
+        # extracted once and shared by every property's check; /repo itself keeps one slot that is overwritten
+        tag = "c" + h[:15]
+        _prune_cache()
     d = os.path.join(CACHE, "%s-%s" % (config, tag))
     stamp = os.path.join(d, "HASH")
     if not force and os.path.exists(stamp) and open(stamp).read().strip() == h:
